@@ -15,7 +15,7 @@ import vlib
 
 THEOREMS = ["DateArith.tdiv_tmod_12", "DateArith.carry_eq_floor", "DateArith.addMonthsCivil_eq_spec", "DateArith.addMonthsCivil_some",
             "DateArith.monthDays_ge", "DateArith.addMonths_day_valid", "DateArith.addMonthsSpec_years", "DateArith.civilFromDays_month",
-            "DateArith.civilFromDays_day_pos", "DateArith.addInterval_month_ok", "DateArith.daysFromCivil_succ", "DateArith.clampFirst_ne_spec"]
+            "DateArith.civilFromDays_day_pos", "DateArith.addInterval_month_ok", "DateArith.addInterval_isSome", "DateArith.daysFromCivil_succ", "DateArith.clampFirst_ne_spec"]
 
 EDGE_DATES = [(2023, 12, 31), (2024, 1, 31), (2024, 2, 29), (2023, 2, 28), (2023, 3, 31), (2024, 3, 31), (1999, 12, 31), (2000, 1, 1),
               (2000, 2, 29), (1900, 2, 28), (1900, 3, 1), (2100, 1, 31), (2099, 12, 30), (1970, 1, 1), (1969, 12, 31), (2023, 10, 31),
